@@ -118,6 +118,12 @@ def d2(ctx, F):
 
 def run(ctx):
     F = ctx.facts("quick")
+    # "payload and headers intact, exactly once" also depends on the frame codec the router's peers are written through: several frames
+    # queued for one peer share a write buffer, so the length prefix must be right at any buffer offset (C05.D2) and both directions
+    # must agree on the limit (C05.D3)
+    from . import c05
+    c05.d2(ctx, F)
+    c05.d3(ctx, F)
     ex, sd, cfg = routers.report(ctx, F, "reqrep", "C02", lambda f: (f.kind in ("K1", "K3", "K9", "K13") and "buffered_err" not in f.key and "local:si" not in f.key and "slot-overwrite:server" not in f.key) or f.kind in ("K4", "K5"))
     ctx.floor("C02.pollai.persistent-states", len(ex.persistent), 8)
     ctx.ok("C02.pollai", "req/rep router explored exhaustively: %d persistent states, %d (block,state) nodes" % (len(ex.persistent), len(ex.it.nodes)), cfg.body.span)
